@@ -167,6 +167,74 @@ pub proof fn lemma_concat_blocks_len(blocks: Seq<Seq<u8>>, k: int, w: int)
     }
 }
 
+// ---- RFC 3550 6.6 BYE ----------------------------------------------------------------------------
+// header(SC, PT=203) | SC x SSRC | optional: length (8 bits) | reason for leaving ... zero-filled to a 32-bit boundary
+pub open spec fn bye_ok(s: Seq<u8>) -> bool {
+    framed(s, 203, 4) && 4 + 4 * hdr_count(s) <= s.len()
+}
+
+/// what the parser additionally guarantees: a reason length octet, when bytes remain, stays inside the packet
+pub open spec fn bye_wf(s: Seq<u8>) -> bool {
+    bye_ok(s) && (s.len() > 4 + 4 * hdr_count(s) ==> 4 + 4 * hdr_count(s) + 1 + s[4 + 4 * hdr_count(s)] <= s.len())
+}
+
+pub open spec fn bye_ssrc(s: Seq<u8>, i: int) -> int {
+    be32(s, 4 + 4 * i)
+}
+
+/// reason text: present iff octets remain after the sources and before the padding trailer
+pub open spec fn bye_reason(s: Seq<u8>) -> Option<Seq<u8>> {
+    let off = 4 + 4 * hdr_count(s);
+    if s.len() - pad_count(s) > off {
+        Some(s.subrange(off + 1, off + 1 + s[off]))
+    } else {
+        None
+    }
+}
+
+pub open spec fn img_u32s(v: Seq<u32>, k: int) -> Seq<u8>
+    decreases k,
+{
+    if k <= 0 {
+        Seq::empty()
+    } else {
+        img_u32s(v, k - 1) + img_be32(v[k - 1] as int)
+    }
+}
+
+pub proof fn lemma_img_u32s_len(v: Seq<u32>, k: int)
+    requires
+        0 <= k <= v.len(),
+    ensures
+        img_u32s(v, k).len() == 4 * k,
+    decreases k,
+{
+    if k > 0 {
+        lemma_img_u32s_len(v, k - 1);
+    }
+}
+
+pub open spec fn bye_size(n: int, padding: int, rlen: int) -> int {
+    if rlen > 0 {
+        4 + 4 * n + pad4(1 + rlen) + padding
+    } else {
+        4 + 4 * n + padding
+    }
+}
+
+pub open spec fn img_bye_reason(reason: Seq<u8>) -> Seq<u8> {
+    if reason.len() > 0 {
+        seq![reason.len() as u8] + reason + zeros(pad4(1 + reason.len() as int) - (1 + reason.len() as int))
+    } else {
+        Seq::empty()
+    }
+}
+
+pub open spec fn img_bye(padding: int, sources: Seq<u32>, reason: Seq<u8>) -> Seq<u8> {
+    img_header(padding, sources.len() as int, 203, bye_size(sources.len() as int, padding, reason.len() as int))
+        + img_u32s(sources, sources.len() as int) + img_bye_reason(reason) + img_padding(padding)
+}
+
 // ---- error truthfulness (property C18) ------------------------------------------------------------
 pub open spec fn err_truthful(s: Seq<u8>, e: crate::RtcpParseError, own_pt: int) -> bool {
     match e {
